@@ -13,7 +13,7 @@ META = {
             "a let/use statement the initialiser is visited in the old scope before the new scope is allocated, the binders go into the "
             "new scope, and later statements see it; S4 name lookup walks expression scopes innermost-first, then module values, then "
             "built-ins; the module scope puts functions/constants/variants into values, types/aliases into types, and imports only "
-            "public declarations. One obligation per variant / call site. S6-S8 qualified values, import namespaces (see DESIGN). S9 no castable node consists of exactly one node of its own kind (lib/shape.py: children of every finish_node site), so AstPtr = (kind, range) identifies a binder; S10 a NameRef under MODULE_NAME_REF is resolved as a module before the value namespace is tried; S11 the pattern of a let / use statement is lowered whatever its right-hand side is. S12 lower_expr_stmt never hands its statement list to a nested call of itself; S13 a module resolution for the base of `base.label` is recorded only after the base's type was tested. S14 module_name builds the ModuleMap keys positionally (no component is compared with a directory name).",
+            "public declarations. One obligation per variant / call site. S6-S8 qualified values, import namespaces (see DESIGN). S9 no castable node consists of exactly one node of its own kind (lib/shape.py: children of every finish_node site), so AstPtr = (kind, range) identifies a binder; S10 a NameRef under MODULE_NAME_REF is resolved as a module before the value namespace is tried; S11 the pattern of a let / use statement is lowered whatever its right-hand side is. S12 lower_expr_stmt never hands its statement list to a nested call of itself; S13 a module resolution for the base of `base.label` is recorded only after the base's type was tested. S15 a qualified type name never falls back to the unqualified lookup. S14 module_name builds the ModuleMap keys positionally (no component is compared with a directory name).",
     "explanation": "Decides the construction shape that Gleam's scoping rules require (innermost binder wins, a let binder is not visible "
                    "in its own initialiser, clause/lambda/use bindings do not escape, values and types are separate namespaces). That "
                    "the classifier maps every syntactic position to the right lookup is behavioural and not decided.",
@@ -378,6 +378,7 @@ def run(F, res, tier):
     binders_independent_of_initialiser(F, res)
     statement_blocks_and_field_access(F, res)
     module_names_are_positional(F, res)
+    qualified_types_do_not_fall_back(F, res)
     # ---- S4
     rn = F.fn("ide::def::resolver::Resolver::resolve_name")
     names = [(b, FL.short(callee(t) or callee_def(t))) for b, t in rn.calls()]
@@ -577,36 +578,25 @@ def resolver_provenance(F, res, only=None, rule="S4"):
 
 
 def qualifier_first(F, res):
-    """S4: a module-qualified type name `module.Type` is resolved through its qualifier first; the unqualified lookup is the fallback"""
+    """S4: a module-qualified type name `module.Type` is resolved through its qualifier: the module is the one
+    Resolver::resolve_module gives for the text of TypeNameRef::module(), and the type is looked up in that module's top-level
+    resolver (whether the current module may serve as a fallback is S15's business)."""
     f = F.fn("ide::def::semantics::classify_type_name")
-    d = FL.Defs(f)
-
-    def closure_calls(op):
-        o = d.origin_op(op)
-        if o.get("k") == "agg" and "closure" in o["rv"] and o["rv"]["closure"] in F.fns:
-            # the closure body, and helpers of this module it delegates to
-            out = []
-            for p_ in F.with_helpers(o["rv"]["closure"], depth=1):
-                if p_.startswith("ide::def::semantics::") and p_ != f.path:
-                    out += [FL.short(callee(t) or callee_def(t)) for b, t in F.fns[p_].calls()]
-            return out
-        return []
-    first, fallback = None, None
-    for b, t in f.calls():
-        c = FL.short(callee(t) or callee_def(t))
-        if c == "Option::and_then":
-            cc = closure_calls(t["args"][1])
-            if "Resolver::resolve_module" in cc:
-                first = (b, t)
-        if c == "Option::or_else":
-            cc = closure_calls(t["args"][1])
-            if "Semantics::resolve_type" in cc:
-                # its receiver must be the qualified lookup
-                ro = d.origin_op(t["args"][0])
-                fallback = (b, ro.get("bb") if ro.get("k") == "call" else None)
-    ok = first is not None and fallback is not None and fallback[1] == first[0]
-    res.ob("S4", "type-name/qualifier-first", "`module.Type` is looked up in the module named by the qualifier first; the current module's scope is only the fallback",
-           ok, where=f.loc(), how="qualified lookup (and_then .. resolve_module) feeds or_else(resolve_type): %s" % ok)
+    ok = False
+    for u in [f] + [F.fns[c] for c in F.closures_of(f.path)]:
+        d = FL.Defs(u)
+        mods = [(b, t) for b, t in u.calls() if FL.short(callee(t) or callee_def(t) or "") == "Resolver::resolve_module"]
+        for b, t in mods:
+            dep = FL.depends(F, u, d, t["args"][-1])
+            if not any(x.endswith("TypeNameRef::module") for x in dep["calls"]):
+                continue
+            for b2, t2 in u.calls():
+                if FL.short(callee(t2) or callee_def(t2) or "") == "Resolver::resolve_type" and u.can_reach(b, [b2]):
+                    dep2 = FL.depends(F, u, d, t2["args"][0])
+                    if any(x.endswith("resolver_for_toplevel") for x in dep2["calls"]) and any(x.endswith("Resolver::resolve_module") for x in dep2["calls"]):
+                        ok = True
+    res.ob("S4", "type-name/qualifier-first", "`module.Type` is looked up in the module named by its qualifier (resolve_module of TypeNameRef::module(), then "
+           "that module's top-level resolver)", ok, where=f.loc(), how="qualified lookup found: %s" % ok)
 
 
 RR = "ide::def::resolver::ResolveResult"
@@ -980,3 +970,33 @@ def module_names_are_positional(F, res, rule="S14"):
     res.ob(rule, "module_name/positional", "module_name derives the module's name from the position of the path components below the root and "
            "compares none of them with a directory name", not names and bool(drops), where=f.loc(),
            how="directory-name literals: %s; positional steps (skip/next/strip_prefix(root)): %d" % (names, len(drops)))
+
+
+def qualified_types_do_not_fall_back(F, res, rule="S15"):
+    """S15: `module.Type` names a type of that module. When the module cannot be resolved (a dependency whose sources are not on
+    disk yet) or has no such type, go-to-definition must answer nothing: a type of the same name in the current module is a
+    *different declaration*. In classify_type_name the unqualified lookup (Semantics::resolve_type) is reached only when the
+    name has no module qualifier (TypeNameRef::module() is None, or the parent is no TYPE_NAME_REF)."""
+    f = F.fn("ide::def::semantics::classify_type_name")
+    units = [f] + [F.fns[c] for c in F.closures_of(f.path)]
+    sites, bad = 0, []
+    for u in units:
+        d = FL.Defs(u)
+        for b, t in u.calls():
+            if not (callee(t) or "").endswith("Semantics::resolve_type"):
+                continue
+            sites += 1
+            ok = False
+            for g in FL.gates(F, u, [b], d):
+                c = FL.short(g.get("callee") or "")
+                if c.endswith("TypeNameRef::module") and g["allowed"] == ["None"]:
+                    ok = True
+                if c.rsplit("::", 1)[-1] in ("cast", "and_then") and g["allowed"] == ["None"]:
+                    dep = FL.depends(F, u, d, g["call_t"]["args"][0]) if g["call_t"]["args"] else {"calls": set()}
+                    full = ((g["call_t"].get("fn") or {}).get("full") or "") + " ".join((g["call_t"].get("fn") or {}).get("targs") or [])
+                    if "TypeNameRef" in full or any(x.endswith("TypeNameRef::module") for x in dep["calls"]):
+                        ok = True
+            if not ok:
+                bad.append("%s line %d" % (FL.short(u.path), t["ln"]))
+    res.ob(rule, "type-name/no-unqualified-fallback", "a qualified type name is never resolved through the unqualified lookup of the current module",
+           sites > 0 and not bad, where=f.loc(), how="unqualified lookups: %d; reached although a module qualifier may be present: %s" % (sites, bad))
